@@ -1,0 +1,43 @@
+//go:build verif && linux && !appengine
+
+package fsnotify
+
+// VerifInotifyFd returns the inotify descriptor number of w, or -1.
+func VerifInotifyFd(w *Watcher) int {
+	b, ok := w.b.(*inotify)
+	if !ok {
+		return -1
+	}
+	return b.fd
+}
+
+// VerifInotifyTables returns copies of the two bookkeeping tables. It never
+// blocks: when the lock is held it reports locked=true and nil maps.
+func VerifInotifyTables(w *Watcher) (wd map[uint32]string, path map[string]uint32, locked bool) {
+	b, ok := w.b.(*inotify)
+	if !ok {
+		return nil, nil, false
+	}
+	if !b.mu.TryLock() {
+		return nil, nil, true
+	}
+	defer b.mu.Unlock()
+	wd = make(map[uint32]string, len(b.watches.wd))
+	for k, v := range b.watches.wd {
+		if v == nil {
+			wd[k] = "<nil>"
+			continue
+		}
+		wd[k] = v.path
+	}
+	path = make(map[string]uint32, len(b.watches.path))
+	for k, v := range b.watches.path {
+		path[k] = v
+	}
+	return wd, path, false
+}
+
+// VerifInotifyNewEvent evaluates the mask translation on a fresh zero backend.
+func VerifInotifyNewEvent(name string, mask, cookie uint32) Event {
+	return (&inotify{}).newEvent(name, mask, cookie)
+}
